@@ -135,7 +135,7 @@ def ob_cascade(W, nsec, blocks):
     a0 = [W.real("a0_%d" % i) for i in range(nsec)]; a1 = [W.real("a1_%d" % i) for i in range(nsec)]
     b1 = [W.real("b1_%d" % i) for i in range(nsec)]; z0 = [W.real("z_%d" % i) for i in range(nsec)]
     if W.sym:
-        f = clone(Nz._numba_lfilter_cascade, np=NumpyShim())
+        f = clone_module(Nz, dict(np=NumpyShim()))["_numba_lfilter_cascade"]
         A = lambda: rnp.array([[a0[i], a1[i]] for i in range(nsec)], dtype=object).view(SymNd)
         B = lambda: rnp.array([[1.0, b1[i]] for i in range(nsec)], dtype=object).view(SymNd)
         Z = lambda: rnp.array([[z0[i]] for i in range(nsec)], dtype=object).view(SymNd)
